@@ -17,6 +17,7 @@ import (
 	"sort"
 	"strings"
 	"sync"
+	"sync/atomic"
 	"testing"
 	"time"
 
@@ -686,16 +687,24 @@ func msgBytes(dir, w, seq, size int) []byte {
 
 // parseStream checks that s is whole messages of direction dir (each issued at most once, per writer in order) followed
 // by at most one strict prefix of another message; returns the whole ones and the partial one.
-func parseStream(s []byte, dir int, issued map[[2]int]int) (whole [][2]int, partial *[2]int, err string) {
+func parseStream(s []byte, dir int, issued map[[2]int]int, failed map[[2]int]bool) (whole [][2]int, partial *[2]int, err string) {
 	next := map[int]int{}
 	for len(s) > 0 {
 		if len(s) < 8 {
-			// too short to identify: must be a prefix of some issued message's header
+			// too short to identify (CBC 1/n-1 splitting can deliver a single byte of a cut Write): it must be a
+			// prefix of the header of some writer's next message; prefer one whose Write did not succeed
+			var cand *[2]int
 			for k, size := range issued {
-				if bytes.HasPrefix(msgBytes(dir, k[0], k[1], size), s) {
+				if k[1] == next[k[0]] && bytes.HasPrefix(msgBytes(dir, k[0], k[1], size), s) {
 					kk := k
-					return whole, &kk, ""
+					if failed[k] {
+						return whole, &kk, ""
+					}
+					cand = &kk
 				}
+			}
+			if cand != nil {
+				return whole, cand, ""
 			}
 			return whole, nil, fmt.Sprintf("trailing %d bytes %x belong to no message", len(s), s)
 		}
@@ -887,6 +896,17 @@ func TestC20_ConnOps(t *testing.T) {
 				conns[1].Close()
 			}
 		}
+		var expect [2]int64 // bytes side will receive when every Write of the other side succeeds
+		var received [2]int64
+		var drainOnce [2]sync.Once
+		drained := [2]chan struct{}{make(chan struct{}), make(chan struct{})}
+		for side := 0; side < 2; side++ {
+			for _, l := range plans[1-side] {
+				for _, m := range l {
+					expect[side] += int64(m.size)
+				}
+			}
+		}
 		for side := 0; side < 2; side++ {
 			chunks[side] = make([][][]byte, nR[side])
 			readErr[side] = make([]error, nR[side])
@@ -905,6 +925,9 @@ func TestC20_ConnOps(t *testing.T) {
 							n, err := conns[side].Read(buf)
 							if n > 0 {
 								chunks[side][r] = append(chunks[side][r], append([]byte{}, buf[:n]...))
+								if atomic.AddInt64(&received[side], int64(n)) >= expect[side] {
+									drainOnce[side].Do(func() { close(drained[side]) })
+								}
 							}
 							if err != nil {
 								readErr[side][r] = err
@@ -988,6 +1011,12 @@ func TestC20_ConnOps(t *testing.T) {
 				} else {
 					writersDone[0].Wait()
 					writersDone[1].Wait()
+					// an orderly end: both applications have read what was sent before anybody closes
+					for side := 0; side < 2; side++ {
+						if expect[side] > 0 {
+							<-drained[side]
+						}
+					}
 				}
 				conns[closeSide].Close()
 				// the other side finishes its writers (they fail or complete), then closes too
@@ -1004,6 +1033,14 @@ func TestC20_ConnOps(t *testing.T) {
 		if len(obsErr) > 0 {
 			t.Fatalf("%s\n%s", obsErr[0], desc)
 		}
+		desc += fmt.Sprintf(" | read errors: %v", readErr)
+		for side := 0; side < 2; side++ {
+			for _, l := range plans[side] {
+				for _, m := range l {
+					desc += fmt.Sprintf(" | side %d writer %d msg %d size %d done=%v err=%v", side, m.writer, m.seq, m.size, m.done, m.err)
+				}
+			}
+		}
 		// judge each direction: bytes written by `side` are read by 1-side
 		for side := 0; side < 2; side++ {
 			rd := 1 - side
@@ -1012,7 +1049,15 @@ func TestC20_ConnOps(t *testing.T) {
 				for _, c := range chunks[rd][0] {
 					stream = append(stream, c...)
 				}
-				whole, partial, e := parseStream(stream, side, issued[side])
+				failed := map[[2]int]bool{}
+				for _, l := range plans[side] {
+					for _, m := range l {
+						if !m.done || m.err != nil {
+							failed[[2]int{m.writer, m.seq}] = true
+						}
+					}
+				}
+				whole, partial, e := parseStream(stream, side, issued[side], failed)
 				if e != "" {
 					t.Fatalf("what side %d received is not a sequential interleaving of the Write calls of side %d: %s\n%s", rd, side, e, desc)
 				}
